@@ -4,7 +4,7 @@ import ast
 
 from ..engine import rule
 from ..flow import PRUNE, Violation, explore, implied_atoms, path_is, \
-    store_value
+    prov_has, provenance, store_value
 from ..model import dotted, walk_local
 from ..tables import struct_fields
 
@@ -481,3 +481,42 @@ def r6(R):
             R.violation(v.node, v.message, g, v.path)
     R.require(n >= 2, 'minKey/maxKey no longer step to the neighbouring '
               'prefix')
+
+
+# ------------------------------------------------------------------ C19.R7
+@rule('C19.R7', 'every index owns its buckets: what is stored under a '
+      'prefix is a bucket made here (or decoded from a saved string), never '
+      'the bucket object of another index', min_instances=2)
+def r7(R):
+    cls = R.prog.cls(FSINDEX)
+    n = 0
+    for name, f in sorted(cls.methods.items()):
+        g, b, F = R.cfg(f, cls, max_depth=0)
+        for op in F.all_ops():
+            if op.kind != 'setitem' or not isinstance(op.stmt, ast.Assign):
+                continue
+            # the container: self._data, or a local bound to it
+            tgt = op.ast.value if isinstance(op.ast, ast.Subscript) else None
+            if tgt is None:
+                continue
+            pt = provenance(tgt, op.node.frame, F)
+            own = dotted(tgt) == ('self', '_data') or (
+                ('path', ('self', '_data')) in pt)
+            if not own:
+                continue
+            n += 1
+            R.instance('fsIndex.%s: %s' % (name, ast.unparse(op.stmt)[:60]))
+            pv = provenance(op.stmt.value, op.node.frame, F)
+            foreign = any(k == 'param' for k, v in pv) and prov_has(
+                pv, 'attr', lambda a: a == '_data') and not prov_has(
+                    pv, 'call', lambda p: p[-1].split('.')[-1] in (
+                        'fsBucket', 'fromString', 'OOBTree'))
+            if foreign:
+                R.violation(
+                    op.node, 'fsIndex.%s stores `%s` under a prefix: a '
+                    'bucket object taken from ANOTHER index.  The two '
+                    'indexes then share it: a later insert, overwrite or '
+                    'delete under that prefix in one shows up in the other '
+                    '(lookups, length, iteration, min/maxKey and save/load '
+                    'go wrong)' % (name, ast.unparse(op.stmt.value)[:40]))
+    R.require(n >= 2, 'fsIndex no longer stores buckets')
